@@ -1,6 +1,6 @@
 #!/bin/bash
 # matrix.sh [jobs] : kill matrix. Every seeded change (seeded/*/patch.diff) and every reverted fix (selftest/reverts/*.diff) is applied to its own
-# scratch copy of /repo under /tmp, all quick checks are run against the copy (ZOG_REPO), the copy is removed. Output: selftest/matrix.tsv
+# scratch copy of /repo under /tmp (OWN=1: only the check of the change's own property is run), all quick checks are run against the copy (ZOG_REPO), the copy is removed. Output: selftest/matrix.tsv
 cd "$(dirname "$0")/.."; ROOT="$(pwd)"
 JOBS="${1:-4}"
 IDS="${IDS:-$(python3 -c "import json;print(' '.join(c['property_id'] for c in json.load(open('MANIFEST.json'))['checks']))")}"
@@ -11,14 +11,15 @@ one() {
   git -C /repo worktree add -q --detach "$W/repo" HEAD || { echo -e "$name\tERROR worktree"; return; }
   ( cd "$W/repo" && (git apply --3way "$patch" 2>/dev/null || git apply "$patch") ) || { echo -e "$name\tERROR apply"; git -C /repo worktree remove --force "$W/repo"; rm -rf "$W"; return; }
   res=""
-  for id in $IDS; do
+  ids="$IDS"; [ -n "${OWN:-}" ] && case "$name" in seeded:C[0-9][0-9]*) ids="${name#seeded:}"; ids="${ids:0:3}";; esac
+  for id in $ids; do
     ZOG_REPO="$W/repo" VERIF_OUT="$W/out-$id" ./run.sh $id quick >"$W/log-$id.txt" 2>&1; code=$?
     case $code in 0) ;; 1) res="$res $id";; *) res="$res $id(inconclusive)";; esac
   done
   echo -e "$name\t${res:- (none)}"
   git -C /repo worktree remove --force "$W/repo"; rm -rf "$W"
 }
-export -f one; export IDS ROOT
+export -f one; export IDS ROOT OWN
 {
   for d in seeded/${PATTERN:-*}/; do n=$(basename $d); echo "$ROOT/seeded/$n/patch.diff seeded:$n"; done
   for f in ${REVERTS:-selftest/reverts/*.diff}; do n=$(basename $f .diff); echo "$ROOT/$f revert:$n"; done
